@@ -18,6 +18,7 @@ term tolerance(r) = 1e-15*(1+|r|) with the right sign under the default locals),
 q16/16 in the TAU = 1/4 mode; >= lim and within the tolerance terms above lim in the default mode;
 zero iff every line is satisfied, positive otherwise), and penalty(constraint(x)) == 0.
 """
+import zlib
 import sys, random, io, contextlib
 from harness.core import Check, tier_seed, assert_repo, main_guard
 from harness import linrel_common as L
@@ -83,7 +84,16 @@ class Compiler(object):
                 v = self.ms.generate_penalty((ineqf, eqf), k=k)
             else:
                 pi, pe = ptypes(self.mp, fam)
-                v = self.ms.generate_penalty((ineqf, eqf), ptype=([pi] * len(ineqf), [pe] * len(eqf)), k=k)
+                # the documented ways of saying which type goes with which condition, by rotation over the texts:
+                # nested lists mirroring (ineqf, eqf); ONE type for everything (texts whose lines are all of one
+                # kind); one flat list of conditions with one flat list of types
+                form = zlib.crc32(repr(key).encode()) % 3
+                if form == 1 and not (len(ineqf) and len(eqf)) and (len(ineqf) or len(eqf)):
+                    v = self.ms.generate_penalty((ineqf, eqf), ptype=(pi if len(ineqf) else pe), k=k)
+                elif form == 2:
+                    v = self.ms.generate_penalty(list(ineqf) + list(eqf), ptype=[pi] * len(ineqf) + [pe] * len(eqf), k=k)
+                else:
+                    v = self.ms.generate_penalty((ineqf, eqf), ptype=([pi] * len(ineqf), [pe] * len(eqf)), k=k)
             self.c[key] = v
         return v
 
